@@ -87,7 +87,9 @@ _LEDGER_RULE = ("one run = a rapid-drawn history (bootstrap funding block, optio
                 "KeepOnlyLatestState, RemoveUntraceableBlocks+GC period, VerifyTransactions, SaveStorageBatch, SaveInvocations, "
                 "mempool preload none/all/half), flush policy (only timer ticks / every block / tape-chosen / concurrent with "
                 "AddBlock and placed inside storeBlock by the lock-yield scheduler), clean restarts at "
-                "drawn heights, and fake-clock ticks that fire the real persist timer and GC of every node. ")
+                "drawn heights, and fake-clock ticks that fire the real persist timer and GC of every node; one run in five appends 14-30 "
+                "empty blocks with MaxTraceableBlocks 8/12/20 and a pruning replica so that header hash pages (16 headers under the verif "
+                "build tag) are crossed; helper contract manifests express their permissions in three different ways. ")
 
 REGISTRY["C01"] = {
     "engine": "ledger",
@@ -95,7 +97,7 @@ REGISTRY["C01"] = {
     "level_text": ("seeded search over histories x node-local configurations x flush schedules x restart heights with the real "
                    "Blockchain on every node; after every block, flush and restart the complete observation of the node "
                    "(state root, AERs, full contract storage, governance, policy incl. attribute fees, contracts incl. the price of a "
-                   "test invocation, designated roles, balances) must equal the producer's; "
+                   "test invocation and the manifest the node holds, designated roles, balances) must equal the producer's; "
                    "sampled, not exhaustive"),
     "level_note": "trusted: harness observer (ledger/digest.go) and block producer; see assumptions",
     "design_ref": "DESIGN.md section 2, C01",
@@ -155,7 +157,8 @@ REGISTRY["C02"] = dict(REGISTRY["C01"], **{
     "design_ref": "DESIGN.md section 2, C02",
     "technique": "deterministic simulation with crash injection at every durable batch boundary, recovered node vs uninterrupted reference, raw-dump equality for resumed resets",
     "budget": {"quick": 90, "thorough": 2400},
-    "rule": _LEDGER_RULE + "C02: one victim replica; headers may arrive ahead of blocks; flushes forced per block or tape-chosen, with GC, "
+    "rule": _LEDGER_RULE + "C02: one victim replica; one run in four extends the history by 18-30 empty blocks with MaxTraceableBlocks 8 and a pruning victim, so that "
+            "header hash pages (16 headers under the verif build tag) and their garbage collection are among the crash points; headers may arrive ahead of blocks; flushes forced per block or tape-chosen, with GC, "
             "with injected disk-full errors; oracle per crash point: NewBlockchain succeeds, height within [durably flushed, last accepted], "
             "observation == reference at that height, remaining blocks accepted with identical state roots and final observation; reset: "
             "completed reset is observationally a fresh node synchronised to the target (heights, tip hash, blocks/txs/AERs retrievable, "
@@ -173,8 +176,11 @@ REGISTRY["C06"] = dict(REGISTRY["C01"], **{
                    "delivered first in 1-8 corrupted variants out of a catalogue of 26 classes (header fields, witness, transaction "
                    "list, encoding), unsigned and - where the result is still an invalid extension - re-signed with the real "
                    "validator keys; after every rejected delivery tip, observation, mempool and (after a forced flush) the raw "
-                   "database dump must be unchanged, then the correct block must still be accepted; chain states are sampled, the "
-                   "catalogue is enumerated by the plan generator"),
+                   "database dump must be unchanged, then the correct block must still be accepted; after the main run one run in three "
+                   "delivers a validly signed block carrying a transaction named by on-chain Conflicts attributes (victim pooled at the "
+                   "verifying node or unknown to it, named by its sender or only by its co-signer, or named twice with the older namer "
+                   "just untraceable), and one in three offers a forged header batch (known index with another NextConsensus, child "
+                   "signed by that key) through AddHeaders; chain states are sampled, the catalogue is enumerated by the plan generator"),
     "level_note": ("trusted: corruption builders in ledger/c06.go. Only the conditions the statement lists are demanded: re-signed "
                    "variants of fields the statement does not mention (version, nonce, primary, next consensus, dropped/reordered "
                    "transactions with a rebuilt Merkle root) are valid different blocks and are not generated. When the corrupted "
@@ -189,7 +195,8 @@ REGISTRY["C06"] = dict(REGISTRY["C01"], **{
                ["version", "prevhash", "merkle", "timestamp", "index+1", "index-far", "index-1", "nonce", "primary", "nextconsensus",
                 "prevstateroot", "sig-flip", "sig-missing", "sig-reorder", "sig-otherkeys", "verifscript", "tx-dup", "tx-alter",
                 "tx-expired", "tx-onchain", "tx-underfunded", "tx-drop-keep-merkle", "tx-reorder-keep-merkle", "truncated", "trailing",
-                "nonminimal-count"]] + ["valid_header_of_rejected_block_recorded", "genuine_header_recorded_before_body",
+                "nonminimal-count", "tx-named-by-onchain-conflicts"]] + ["conflict_attack_delivered", "conflict_attack_victim_pooled",
+               "conflict_attack_named_by_cosigner", "conflict_attack_two_namers", "forged_header_batch", "valid_header_of_rejected_block_recorded", "genuine_header_recorded_before_body",
                "equivocating_header_recorded", "lenient_decoding_accepted_identical_block", "corruption_keeps_genuine_header"],
 })
 REGISTRY["C04"] = dict(REGISTRY["C01"], **{
@@ -197,7 +204,10 @@ REGISTRY["C04"] = dict(REGISTRY["C01"], **{
     "level_text": ("twin execution on a forked ledger: after a generated history the ledger is forked; fork A receives a block with the "
                    "faulting transaction X, fork B the same block with X replaced by a twin with the same signers, fees and validity "
                    "window whose script is a bare ABORT (or, for caught exceptions, whose callee throws at once). The fault is injected "
-                   "as (i) ABORT/THROW/failing call/ASSERT at position k of a generated effect script, (ii) gas exhaustion: the halting "
+                   "as (i) ABORT/THROW/failing call/ASSERT at position k of a generated effect script, or an execution that ends while an "
+                   "exception is still being unwound (payment callback of a native contract throws under try; ABORT / aborting call inside "
+                   "a finally block running for a pending exception) followed in the same block by another account's halting transactions "
+                   "whose effects sit behind try blocks, finally blocks and native callbacks, (ii) gas exhaustion: the halting "
                    "script re-run with its system fee cut at a plan-chosen per-mille point plus up to 48 (thorough; quick 4) cut points "
                    "spread over the distinct cumulative-gas levels recorded in a dry run, (iii) an exception raised at depth 1-3 of a "
                    "call tree and caught by the caller. Fault points per script are enumerated, scripts and histories are sampled"),
@@ -215,7 +225,8 @@ REGISTRY["C04"] = dict(REGISTRY["C01"], **{
     "probes": ["fault_at_position", "gas_cut", "caught_exception", "caught_exception/depth1", "caught_exception/depth2", "caught_exception/depth3",
                "atom_forks_compared", "atom_caught_events_compared", "gas_levels_seen", "atom_x_did_not_fault", "atom_caught_not_halting",
                "atom_tx_not_admissible"] + ["fault/" + n for n in ["ABORT", "THROW", "K.fail", "K.abort", "call-missing-method",
-               "call-missing-contract", "ASSERT-false", "K.putFail"]],
+               "call-missing-contract", "ASSERT-false", "K.putFail", "try{GAS.transfer->K.onPayment throws}", "try{K.fail}finally{ABORT}",
+               "try{K.fail}finally{K.abort}"]] + ["atom_witness_txs_after_x"],
 })
 
 _NET_COMPONENTS = {
@@ -245,8 +256,10 @@ REGISTRY["C19"] = {
     "level": "exploration",
     "level_text": ("seeded search over delivery schedules and fault sequences with 4 real consensus services on 4 real ledgers; safety checked after every driver "
                    "event (one block hash and one state root per height over all ledgers, every committed block accepted by every other ledger after the bytes "
-                   "round trip, full observation equality at the end), bounded liveness asserted only in the synchronous configuration (>= 5 blocks on every "
-                   "ledger within 20 block times; a transaction pooled by a majority is on chain within 10 block times)"),
+                   "round trip, full observation equality at the end); bounded liveness: in the synchronous configuration >= 5 blocks on every "
+                   "ledger within 20 block times, a transaction pooled by a majority on chain within 10 block times and no pause longer than 8 block times "
+                   "between two heights or after the last one; after a faulty run every fault stops and every validator must gain two blocks within "
+                   "300 simulated seconds; in one 4-validator run in three an election rotates the validator set at an epoch boundary"),
     "level_note": "trusted: the harness transport and the server.go stub; sampled schedules, not exhaustive; N=7 not built",
     "design_ref": "DESIGN.md section 2, C19",
     "technique": "deterministic simulation: real dBFT services and ledgers on a simulated transport with seeded message loss, duplication, delay, reordering and silent/late validators",
@@ -255,7 +268,8 @@ REGISTRY["C19"] = {
     "rule": _NET_RULE + "Non-trivial = at least one fault fired or a block was committed; distinct = distinct event-log hash (every committed block hash with its time and first node is logged).",
     "probes": ["msg_dropped", "msg_duplicated", "msg_late", "dropped_by_silence", "observer_restart", "blocks_committed", "runs_with_blocks",
                "block_accepted_from_network", "sync_block_offered", "tx_request_answered", "tx_pooled", "tx_pooled_at_majority", "pending_tx_included",
-               "log/info: changing dbft view", "log/info: sending RecoveryMessage", "log/info: received ChangeView"],
+               "log/info: changing dbft view", "log/info: received ChangeView", "heal_phase_entered", "healed_within_5s",
+               "net_election_voted", "net_validators_rotated", "sync_max_block_gap_le_2"],
     "components": _NET_COMPONENTS,
     "assumptions": _NET_ASSUMPTIONS,
 }
@@ -277,14 +291,18 @@ REGISTRY["C07"] = dict(REGISTRY["C19"], **{
 REGISTRY["C17"] = dict(REGISTRY["C19"], **{
     "level_text": ("only the clause of C17 that has a wire path in it: inside the network simulation 3-18% of all messages are corrupted (bit flip, truncation, trailing "
                    "bytes, duplicated segment, non-minimal re-encoding of a varint); Message.Decode either fails or yields a payload whose re-encoding decodes to an "
-                   "equal value with the same hash, re-encoding is a fixed point, nothing panics; for every transaction and block seen, Hash() and Size() are equal "
+                   "equal value with the same hash, re-encoding is a fixed point, nothing panics; the dBFT message inside every consensus extensible decodes and "
+                   "re-encodes to the signed bytes; every other P2P message kind (version, addr, ping, headers, inventories, MPT data, merkle block ...) is built from "
+                   "the real chain and delivered unaltered, altered, or with an element count blown up to 4M / 2^31 / 2^64-1, and decoding an altered message may not "
+                   "allocate more than 48 MiB; for every transaction and block seen, Hash() and Size() are equal "
                    "whether the object came from a P2P message, from inside a block body, from NewTransactionFromBytes (RPC path) or from the database after a restart"),
     "level_note": "not decided here: round trip of every value of every serialisable type in binary and JSON, size laws, decoder limits on arbitrary byte strings - pure functions of the input, not claimed",
     "design_ref": "DESIGN.md section 2, C17",
     "technique": "deterministic simulation: wire corruption faults on a simulated transport, decode/re-encode fixed point and path-independence oracles",
     "rule": _NET_RULE + "C17: corruption rate 3-18% of messages; one observer, restarted in 1 run out of 3 (database path). Non-trivial/distinct as for C19.",
     "probes": ["wire_bitflip", "wire_truncated", "wire_trailing", "wire_duplicated_segment", "wire_nonminimal_varint", "wire_decode_rejected", "wire_reencode_checked",
-               "tx_paths_compared", "block_paths_compared", "tx_db_path_compared", "corrupted_block_rejected", "observer_restart"],
+               "tx_paths_compared", "block_paths_compared", "tx_db_path_compared", "corrupted_block_rejected", "observer_restart",
+               "chatter_message_sent", "wire_count_inflated", "wire_other_command", "consensus_payload_checked/0x41", "consensus_payload_checked/0x0"],
 })
 
 # C20 = part A (block queue, engine bqsim) + part B (state synchronisation, engine ledger); workers alternate between the two engines.
@@ -300,7 +318,7 @@ REGISTRY["C20"] = dict(_c20a, **{
                    "contract storage, without leftover temporary items, and then follow the source in lockstep"),
     "level_note": ("part A: " + _c20a["level_note"] + ". part B: MPT-based mode only (the raw-storage-item mode needs the NeoFS fetcher configuration "
                    "and is not built); the peer (server.go's request logic) is the harness; the source serves nodes through "
-                   "statesync.Module.Traverse as handleGetMPTDataCmd does; chains are shorter than one header-hash batch (2000)"),
+                   "statesync.Module.Traverse as handleGetMPTDataCmd does; header hash pages hold 16 headers under the verif build tag (2000 in production)"),
     "design_ref": "DESIGN.md section 2, C20 parts A and B; section 9",
     "technique": _c20a["technique"] + "; state sync: real source and target ledgers, simulated peer set with seeded ordering/batching/duplication/wrong data, restart and crash injection incl. every batch boundary of the state jump",
     "budget": {"quick": 75, "thorough": 1800},
